@@ -122,11 +122,11 @@ impl Prop for C06 {
         }
         match doc_shards(false)[shard - sp.n_shards()] {
             DocShard::Base(sk) => kdev_shard(&menus(sk), k_for(t, sk), None, &mut |v| {
-                f(&C06Case::Doc(DocCase { skel: sk, v: v.to_vec(), junk: None }));
+                f(&C06Case::Doc(DocCase { skel: sk, v: v.to_vec(), junk: None, name_char: None }));
             }),
             DocShard::First(sk, i) => kdev_shard(&menus(sk), k_for(t, sk), Some(i), &mut |v| {
                 if render(sk, v).is_some() {
-                    f(&C06Case::Doc(DocCase { skel: sk, v: v.to_vec(), junk: None }));
+                    f(&C06Case::Doc(DocCase { skel: sk, v: v.to_vec(), junk: None, name_char: None }));
                 }
             }),
             DocShard::Reject(_) => {}
